@@ -79,7 +79,9 @@ func (u *decodeUnit) cycle(cycle int, app risc.Application, ctx *risc.Context) {
 			return
 		}
 		if runner.InstructionType() == risc.Ret {
+			// Nothing after a ret is to be decoded
 			u.ret = true
+			return
 		}
 	}
 }
